@@ -60,7 +60,7 @@ class C17(Prop):
     rule = ('EXHAUSTIVE over: {struct named/tuple, enum with the fields in the 1st/2nd variant, named or tuple} x 1-3 fields, each from 9 '
             'options {u8, F (PartialEq only), F ignored, u8 ignored, F key->Eq, u8 key->non-Eq, F key->non-Eq, F by, u8 key->Eq} on '
             '#[eq(..)] or #[ord(..)] x both entry points; one field carrying both #[eq(o1)] and #[ord(o2)], o in {key->Eq, key->non-Eq, by}, '
-            'either order; plus generic X<T> with default / overriding bound(..); compiled '
+            'either order; `#[hash(ignore)]` on an Eq / non-Eq field with Hash derived alongside; plus generic X<T> with default / overriding bound(..); compiled '
             '(metadata only) against the real proc-macro: accepted iff every compared component is Eq; non-trivial = every case')
     assumptions = ['rustc rejects an unsatisfied `T: Eq` obligation (trusted; observed on every rejecting case)']
 
@@ -98,6 +98,23 @@ class C17(Prop):
                         req = sx.inv_derive(kw + sx.a_derive_ex(sx.dx(tl)) + ' ' + it[len(kw):])
                     out.append((req, dict(features=(attr, shape, mode) + tuple(o[0] for o in fl),
                                           ok=all(o[3] for o in fl), nontrivial=True)))
+        # `#[hash(ignore)]` (Hash derived next to Eq) says nothing about equality: the field is still compared, so it must be Eq
+        for (tn, t, ok), shape, mode in itertools.product((('F', sx.tid('F'), False), ('u8', sx.tid('u8'), True)),
+                                                          ('named', 'tuple', 'enumt1'), ('attr', 'derive')):
+            tup = shape != 'named'
+            fs = [sx.field(sx.tid('u8'), name=None if tup else 'f0'),
+                  sx.field(t, name=None if tup else 'f1', attrs=[sx.a_cmp('hash', sx.m_list(sx.cargs(ignore=True)))])]
+            body = sx.unnamed(fs) if tup else sx.named(fs)
+            if shape == 'enumt1':
+                it = sx.enum('E', [sx.variant('B', sx.UNIT), sx.variant('A', body)])
+                kw = '(enum ('
+            else:
+                it = sx.struct('X', body)
+                kw = '(struct ('
+            for tl in ([('Eq', None), ('PartialEq', None), ('Hash', None)], [('Hash', None), ('PartialEq', None), ('Eq', None)]):
+                req = sx.inv_attr(sx.dx(tl), it) if mode == 'attr' else sx.inv_derive(
+                    kw + sx.a_derive_ex(sx.dx(tl)) + ' ' + it[len(kw):])
+                out.append((req, dict(features=('hash-ignore', tn, shape, mode, tl[0][0]), ok=ok, nontrivial=True)))
         # both #[eq(..)] and #[ord(..)] on one field
         for fo, shape, mode in itertools.product(double_options(), ('named', 'tuple', 'enum1'), ('attr', 'derive')):
             name, t, at, ok = fo
